@@ -253,7 +253,7 @@ def _part_a(ctx, case, rec, d):
                 bad = 'record of %s differs from Fitter.fit + keep%r in %s' % (s.name, sel, what)
                 break
         if bad is None:
-            want_filters = ref_fitter.filters
+            want_filters = held[0].meta.filters          # what the object interface attaches to its results
             if meta.model_dir != md or canon(meta.filters) != canon(want_filters) or canon(meta.extinction_law) != canon(law):
                 bad = 'metadata read back differs (model_dir / filters / extinction law)'
             elif any(canon([r.meta.model_dir, r.meta.filters, r.meta.extinction_law]) != canon([md, want_filters, law]) for r in recs):
